@@ -4,6 +4,10 @@ import (
 	"fmt"
 	"math/rand"
 	"net/http"
+	"os"
+	"path/filepath"
+	"regexp"
+	"sort"
 	"strings"
 
 	"verif/internal/aspec"
@@ -153,6 +157,35 @@ func c01ExtraSpecs(c *core.Check, rng *rand.Rand) ([]*aspec.ASpec, []string) {
 		t2 := []aspec.Seg{{K: "lit", S: "a"}, {K: "lit", S: "b"}, {K: "lit", S: "d"}}
 		a.Paths = []aspec.PathItem{{Template: t1, Ops: []aspec.Op{simpleOp("GET", t1)}}, {Template: t2, Ops: []aspec.Op{simpleOp("GET", t2)}}}
 		add("router:static-and-variable-child-same-name", a)
+	}
+	// names taken from the generator's own vocabulary: every word of an identifier or string in goag's sources and
+	// templates, as a literal path segment next to a variable segment (route function names), as a property name
+	// (field names next to generated methods) and as a query parameter name - the names most likely to meet a name
+	// the generated code uses for itself
+	words := generatorWords()
+	for start := 0; start < len(words); start += 40 {
+		end := start + 40
+		if end > len(words) {
+			end = len(words)
+		}
+		a, _ := mk()
+		a.Paths = nil
+		var props []aspec.Prop
+		for i, w := range words[start:end] {
+			n := fmt.Sprintf("n%d", i)
+			t1 := []aspec.Seg{{K: "lit", S: n}, {K: "var", S: "v"}, {K: "lit", S: "x"}}
+			t2 := []aspec.Seg{{K: "lit", S: n}, {K: "lit", S: w}, {K: "lit", S: "y"}}
+			o1 := simpleOp("GET", t1)
+			o1.Params = append(o1.Params, aspec.Param{In: "query", Name: w, Schema: str})
+			a.Paths = append(a.Paths, aspec.PathItem{Template: t1, Ops: []aspec.Op{o1}}, aspec.PathItem{Template: t2, Ops: []aspec.Op{simpleOp("GET", t2)}})
+			props = append(props, aspec.Prop{Name: w, Schema: str, Req: i%2 == 0})
+		}
+		a.Schemas = []aspec.NamedSchema{{Name: "Holder", Schema: objSchema(props...)}}
+		t := lit("holder")
+		op := simpleOp("GET", t)
+		op.Responses = []aspec.RespRef{{Status: "200", R: &aspec.Response{Desc: "ok", Body: aspec.Body{K: "json", Schema: &aspec.Schema{K: "ref", To: "Holder"}}}}}
+		a.Paths = append(a.Paths, aspec.PathItem{Template: t, Ops: []aspec.Op{op}})
+		add(fmt.Sprintf("vocabulary:%s..%s", words[start], words[end-1]), a)
 	}
 	{
 		// an alias of a component response whose JSON body is an inline object
@@ -315,4 +348,32 @@ func c01ExtraSpecs(c *core.Check, rng *rand.Rand) ([]*aspec.ASpec, []string) {
 	}
 	_ = ops
 	return specs, names
+}
+
+var reWord = regexp.MustCompile(`[A-Za-z][a-z]{2,11}`)
+
+// generatorWords: the lower-cased words (3-12 letters) of goag's own sources and templates, sorted.
+func generatorWords() []string {
+	seen := map[string]bool{}
+	for _, pat := range []string{"generator/*.go", "generator/*.gotmpl", "*.go", "specification/*.go"} {
+		files, _ := filepath.Glob(filepath.Join(core.RepoDir(), pat))
+		for _, f := range files {
+			if strings.HasSuffix(f, "_test.go") {
+				continue
+			}
+			bs, err := os.ReadFile(f)
+			if err != nil {
+				continue
+			}
+			for _, w := range reWord.FindAllString(string(bs), -1) {
+				seen[strings.ToLower(w)] = true
+			}
+		}
+	}
+	out := make([]string, 0, len(seen))
+	for w := range seen {
+		out = append(out, w)
+	}
+	sort.Strings(out)
+	return out
 }
